@@ -141,6 +141,15 @@ def search_filter(pid, r, n, stats):
                 rad = math.hypot(a, b) / 2 * r.choice([1, 1, -1])
                 evs.append(("g", "G28 X Y"))
                 evs.append(("g", "%s X%r Y%r R%r" % (r.choice(["G2", "G3"]), a, b, rad)))
+        if pid == "C09" and r.random() < 0.12:
+            # retractions while the tracked feed rate is still 0 (no F word yet, or an explicit F0)
+            evs = [("g", "G28")]
+            if r.random() < 0.5:
+                evs.append(("g", r.choice(["G1 F0", "G0 X5 Y5", "G1 X5 Y5 F0", "G1 Z0.2"])))
+            evs.append(("g", r.choice(["G1 E-2", "G0 X15 Y15 E-1", "G1 X30 Y30 E-0.5", "G1 E-1.5", "G0 E-3"])))
+            evs.append(("g", r.choice(["G1 X15 Y15", "G1 X16 Y14 E0", "G1 E0", "G1 X44 Y43"])))
+            evs.append(("g", r.choice(["G1 X30 Y31", "G1 E0", "G1 X30 Y30 E1", "G1 E-2"])))
+            evs.append(("g", "G1 X3 Y3 E2"))
         if pid == "C07" and r.random() < 0.3:
             # tracked values far outside repr's plain range end up in the exit / recovery commands
             evs = c07_extreme_program(r, cfg)
@@ -442,6 +451,17 @@ def search_c19(pid, r, n, stats):
             v = oracle_text.c19_g28(flags)
             if v:
                 return {"kind": "g28flags", "property": pid, "params": flags, "violations": v}
+        if r.random() < 0.2:
+            # arcs: flags and repeats anywhere among the words, a centre offset somewhere
+            ws = []
+            for _k in range(r.randint(2, 7)):
+                ws.append(r.choice("XYZEFIJxyij") + r.choice(["", "", "1", "2.5", "-3", "0", "12", ".5", "40", "7."]))
+            ws.insert(r.randint(0, len(ws)), r.choice(["I5", "J-4", "I2 J2", "i3", "J.5"]))
+            arc = " ".join(ws)
+            code = r.choice(["G2", "G3"])
+            v = oracle_text.c19_arc(code, arc)
+            if v:
+                return {"kind": "arcwords", "property": pid, "code": code, "params": arc, "violations": v}
     return None
 
 
